@@ -603,7 +603,9 @@ class World:
         self.hung = []
         self._ignore_pauses = False
         self.event_logging = False  # virtualise the "_jade_event" logger per process and record what reaches *events.log files
-        self.events_written = []  # (file, text) of every record a FileHandler wrote to an *events.log file
+        self.events_written = []  # (file, text, process, seq) of every record a FileHandler wrote to an *events.log file
+        self.event_file_reads = []  # (file, seq, process): an *events.log file opened for reading (consolidation)
+        self.evseq = 0
         self.shared_node_hosts = 0  # 0: every batch on its own host; k: batches share k host names
         self.exotic_plan = []  # [{"at": step, "steps": duration, "which": n}] unusual scheduler states (see _exotic_tick)
         self.fs_watch = set()  # basenames whose mutations are recorded as "fs" events
@@ -1503,7 +1505,9 @@ def install():
             if vt.dead:
                 raise Killed()
             try:
-                vt.world.events_written.append((self.baseFilename, self.format(record), vt.proc.name))
+                vt.world.evseq += 1
+                vt.world.events_written.append((self.baseFilename, self.format(record), f"{vt.proc.name}:{vt.proc.kind}",
+                                                vt.world.evseq))
             except Exception:  # noqa: BLE001
                 pass
         return real_emit(self, record)
@@ -1529,6 +1533,10 @@ def install():
             return REAL.open(file, mode, *a, **kw)
         w = vt.world
         if not (("w" in mode or "a" in mode or "x" in mode or "+" in mode) and w.under_root(file)):
+            if w.event_logging and str(file).endswith("events.log"):
+                # a consolidation reads this event file now (no scheduling point until it is read to the end)
+                w.evseq += 1
+                w.event_file_reads.append((os.path.abspath(os.fspath(file)), w.evseq, vt.proc.name))
             return REAL.open(file, mode, *a, **kw)
         path = os.path.abspath(os.fspath(file))
         if vt.dead:
